@@ -6,7 +6,9 @@
      canon_flags_match_rfc4034   : forallb flag_ok table = true
      canonical_rdata_eq_rfc4034  : digestable table cls ty fs origin = rfc4034_canonical_rdata ty fs origin *)
 From DV Require Import Base.Prelude Model.NameM Model.DnssecM.
+From Coq Require Import Permutation Sorted.
 From DV Require Import Proofs.NameValid Proofs.DnssecRef Proofs.DnssecCanon Proofs.DnssecKey.
+From DV Require Import Proofs.DnssecSort Proofs.DnssecRrsig.
 Open Scope Z_scope.
 
 (* Rdata.to_digestable, for any per-type table that passes the RFC 4034 6.2 check, is the RFC
@@ -48,6 +50,55 @@ Theorem nsec3_eq_rfc : forall (H : bytes -> bytes) domain salt iterations,
 Proof. exact nsec3_hash_eq_rfc. Qed.
 Print Assumptions nsec3_eq_rfc.
 
+(* sorted(rdatas) is the canonical RR order of RFC 4034 6.3, and that order is unique *)
+Theorem canonical_rrset_order : forall l : list bytes,
+  is_canonical_order l (sort_bytes l) /\
+  forall s, is_canonical_order l s -> s = sort_bytes l.
+Proof.
+  intros l. split; [apply sort_bytes_canonical|].
+  intros s Hs. eapply canonical_order_unique; [exact Hs|apply sort_bytes_canonical].
+Qed.
+Print Assumptions canonical_rrset_order.
+
+(* _make_rrsig_signature_data == RFC 4034 3.1.8.1: 18-octet RRSIG prefix, canonical signer name,
+   then every RR as owner|type|class|original TTL|rdlength|canonical RDATA in canonical order, the
+   owner wildcard-reduced per RFC 4035 5.3.2; for relative names with an origin as well *)
+Theorem rrsig_input_eq_rfc : forall tbl : list entry,
+  forallb flag_ok tbl = true ->
+  forall r rrname rdclass rdtype rdatas origin signer owner canon sorted,
+    rfc_expand (r_signer r) origin = Ok signer -> Valid signer ->
+    rfc_expand rrname origin = Ok owner -> Valid owner ->
+    labels_ok owner (r_labels r) ->
+    Forall (fun fs => arity_ok tbl rdclass rdtype fs = true) rdatas ->
+    map_res (fun fs => rfc4034_canonical_rdata rdtype fs origin) rdatas = Ok canon ->
+    Forall (fun c => zlen c < 65536) canon ->
+    is_canonical_order canon sorted ->
+    make_rrsig_data tbl r rrname rdclass rdtype rdatas origin
+    = Ok (rfc_rrsig_input (r_covered r) (r_alg r) (r_labels r) (r_ottl r) (r_exp r) (r_inc r) (r_tag r)
+                          signer owner rdclass rdtype sorted).
+Proof. exact make_rrsig_data_eq_rfc. Qed.
+Print Assumptions rrsig_input_eq_rfc.
+
+(* RFC 4035 5.3.2: fewer labels than the owner has -> "*" + the rightmost `labels` labels (+ root);
+   the reduced owner is again a valid name *)
+Theorem wildcard_reduction : forall owner labels,
+  Valid owner -> is_absolute owner = true -> 0 <= labels <= rfc_label_count owner ->
+  rfc_wildcard_owner owner labels =
+    (if labels =? rfc_label_count owner then owner
+     else [42] :: skipn (length owner - 1 - Z.to_nat labels) owner)
+  /\ Valid (rfc_wildcard_owner owner labels).
+Proof. exact wildcard_reduction_spec. Qed.
+Print Assumptions wildcard_reduction.
+
+(* RFC 4035 5.3.1: labels field larger than the owner's label count is refused *)
+Theorem rrsig_labels_too_large_rejected : forall tbl r rrname rdclass rdtype rdatas origin signer owner,
+  rfc_expand (r_signer r) origin = Ok signer -> Valid signer ->
+  rfc_expand rrname origin = Ok owner -> Valid owner ->
+  rfc_label_count owner < r_labels r ->
+  make_rrsig_data tbl r rrname rdclass rdtype rdatas origin = Lib eValidationFailure.
+Proof. exact make_rrsig_data_rejects_long_labels. Qed.
+Print Assumptions rrsig_labels_too_large_rejected.
+
 (* ---------- non-vacuity ---------- *)
 Example keytag_hyps_satisfiable :
   key_id 257 3 8 [1; 2; 3; 4; 5] = Ok (rfc_keytag (u16 257 ++ [3; 8] ++ [1; 2; 3; 4; 5]))
@@ -70,3 +121,28 @@ Example canonical_rdata_nonvacuous :
   digestable tbl 1 15 [FRaw [0; 10]; FName [[77; 88]; []]] None = Ok [0; 10; 2; 109; 120; 0] /\
   digestable tbl 1 107 [FRaw [0; 10]; FName [[77; 88]; []]] None = Ok [0; 10; 2; 77; 88; 0].
 Proof. vm_compute. repeat split. Qed.
+
+Example rrsig_hyps_satisfiable :
+  let tbl := [ {| e_class := 255; e_type := 15; e_calls := [{| c_none := true; c_canon := true |}]; e_loop := None |} ] in
+  let r := {| r_covered := 15; r_alg := 8; r_labels := 1; r_ottl := 300; r_exp := 2; r_inc := 1; r_tag := 7;
+              r_signer := []; r_sig := [] |} in
+  let origin := Some [[69; 120]; []] in
+  let rdatas := [[FRaw [0; 20]; FName [[66]]]; [FRaw [0; 10]; FName [[65]; []]]] in
+  rfc_expand (r_signer r) origin = Ok [[69; 120]; []] /\
+  rfc_expand [[119]; [88]] origin = Ok [[119]; [88]; [69; 120]; []] /\
+  labels_ok [[119]; [88]; [69; 120]; []] 1 /\
+  map_res (fun fs => rfc4034_canonical_rdata 15 fs origin) rdatas = Ok [[0; 20; 1; 98; 2; 101; 120; 0]; [0; 10; 1; 97; 0]] /\
+  is_canonical_order [[0; 20; 1; 98; 2; 101; 120; 0]; [0; 10; 1; 97; 0]] [[0; 10; 1; 97; 0]; [0; 20; 1; 98; 2; 101; 120; 0]] /\
+  make_rrsig_data tbl r [[119]; [88]] 1 15 rdatas origin
+  = Ok ([0; 15; 8; 1; 0; 0; 1; 44; 0; 0; 0; 2; 0; 0; 0; 1; 0; 7] ++ [2; 101; 120; 0]
+        ++ ([1; 42; 2; 101; 120; 0] ++ [0; 15; 0; 1; 0; 0; 1; 44; 0; 5] ++ [0; 10; 1; 97; 0])
+        ++ ([1; 42; 2; 101; 120; 0] ++ [0; 15; 0; 1; 0; 0; 1; 44; 0; 8] ++ [0; 20; 1; 98; 2; 101; 120; 0])).
+Proof.
+  cbv zeta.
+  split; [vm_compute; reflexivity|].
+  split; [vm_compute; reflexivity|].
+  split; [split; [vm_compute; split; congruence|vm_compute; discriminate]|].
+  split; [vm_compute; reflexivity|].
+  split; [split; [apply perm_swap|repeat constructor; vm_compute; congruence]|].
+  vm_compute; reflexivity.
+Qed.
